@@ -45,13 +45,7 @@ def run(ck):
     # generator clause: the project's own GenerateTestCasesToFile output (about 82k vectors, 4 per enabled opcode),
     # loaded as the project's verifier loads it; IsaTrace additionally requires no abort, pc advance = length and
     # every data access inside the two compared windows
-    gen = os.path.join(ck.work, 'cases.bin')
-    ck.run_jobs(['%s --mode genmake:%s --out %s' % (ck.bin('isa_rec'), gen, os.path.join(ck.work, 'genmake.ndjson'))], timeout=600)
-    gfiles = [os.path.join(ck.work, 'gen_%02d.ndjson' % i) for i in range(16)]
-    ck.run_jobs(['%s --mode genfile:%s:%d/16 --out %s' % (ck.bin('isa_rec'), gen, i, f) for i, f in enumerate(gfiles)], timeout=900)
-    os.remove(gen)
-    ck.validate_traces('IsaTrace', 'Trace_Isa.cfg', gfiles, timeout=2400, sig_prefix='generator')
-    ck.extra_cov['generator_vectors'] = sum(sum(1 for _ in open(f)) for f in gfiles)
+    gfiles = isa_common.generator_clause(ck)
     ck.sample_lines(gfiles[0], 1, skip=50)
     ck.assumptions += ['the TLA+ instruction semantics is a hand transcription of the PINNED interpreter.h (C01 names the '
                        'pinned interpreter as the hardware-validated reference); it is frozen in /verif and never derived '
